@@ -59,6 +59,117 @@ func snoopFile(recs [][]byte, padTo int) []byte {
 	return b.Bytes()
 }
 
+// ngSynthetic builds a pcapng file containing one block of every type the reader knows and some
+// it does not (no repository file has an obsolete Packet Block): section header, interface
+// description (with if_tsresol), obsolete Packet Block (type 2, with a comment option), Simple
+// Packet Block, Enhanced Packet Block, name resolution, interface statistics, decryption secrets,
+// a custom block, an unknown block type.
+func ngSynthetic(bo binary.ByteOrder) []byte {
+	var f bytes.Buffer
+	u16 := func(b *bytes.Buffer, v uint16) { binary.Write(b, bo, v) }
+	u32 := func(b *bytes.Buffer, v uint32) { binary.Write(b, bo, v) }
+	pad := func(b *bytes.Buffer) {
+		for b.Len()%4 != 0 {
+			b.WriteByte(0)
+		}
+	}
+	opt := func(b *bytes.Buffer, code uint16, val []byte) {
+		u16(b, code)
+		u16(b, uint16(len(val)))
+		b.Write(val)
+		pad(b)
+	}
+	block := func(typ uint32, body []byte) {
+		u32(&f, typ)
+		u32(&f, uint32(12+len(body)))
+		f.Write(body)
+		u32(&f, uint32(12+len(body)))
+	}
+	var b bytes.Buffer
+	u32(&b, 0x1a2b3c4d)
+	u16(&b, 1)
+	u16(&b, 0)
+	b.Write([]byte{0xff, 0xff, 0xff, 0xff, 0xff, 0xff, 0xff, 0xff})
+	opt(&b, 2, []byte("hw"))
+	opt(&b, 0, nil)
+	block(0x0a0d0d0a, b.Bytes())
+	b.Reset()
+	u16(&b, 1) // link type ethernet
+	u16(&b, 0)
+	u32(&b, 96) // snap length
+	opt(&b, 2, []byte("eth0"))
+	opt(&b, 9, []byte{6}) // if_tsresol
+	opt(&b, 0, nil)
+	block(1, b.Bytes())
+	data := []byte{1, 2, 3, 4, 5, 6, 7}
+	b.Reset() // obsolete Packet Block
+	u16(&b, 0)
+	u16(&b, 0xffff)
+	u32(&b, 0)
+	u32(&b, 1000)
+	u32(&b, uint32(len(data)))
+	u32(&b, uint32(len(data)+3))
+	b.Write(data)
+	pad(&b)
+	opt(&b, 1, []byte("pb"))
+	opt(&b, 0, nil)
+	block(2, b.Bytes())
+	b.Reset() // Simple Packet Block
+	u32(&b, uint32(len(data)))
+	b.Write(data)
+	pad(&b)
+	block(3, b.Bytes())
+	b.Reset() // Enhanced Packet Block
+	u32(&b, 0)
+	u32(&b, 0)
+	u32(&b, 2000)
+	u32(&b, 5)
+	u32(&b, 9)
+	b.Write(data[:5])
+	pad(&b)
+	opt(&b, 1, []byte("epb"))
+	opt(&b, 0, nil)
+	block(6, b.Bytes())
+	b.Reset() // Name Resolution Block
+	u16(&b, 1)
+	u16(&b, 9)
+	b.Write([]byte{10, 0, 0, 1, 'h', 'o', 's', 't', 0})
+	pad(&b)
+	u16(&b, 0)
+	u16(&b, 0)
+	block(4, b.Bytes())
+	b.Reset() // Interface Statistics Block
+	u32(&b, 0)
+	u32(&b, 0)
+	u32(&b, 3000)
+	opt(&b, 4, []byte{0, 0, 0, 0, 0, 0, 0, 9})
+	opt(&b, 0, nil)
+	block(5, b.Bytes())
+	b.Reset() // Decryption Secrets Block
+	u32(&b, 0x544c534b)
+	u32(&b, 5)
+	b.Write([]byte("KEYS\n"))
+	pad(&b)
+	block(10, b.Bytes())
+	b.Reset() // custom block
+	u32(&b, 32473)
+	b.Write([]byte("custom"))
+	pad(&b)
+	block(0x00000bad, b.Bytes())
+	block(0x7fff0001, []byte{1, 2, 3, 4}) // unknown block type
+	// one more packet behind all of them
+	b.Reset()
+	u32(&b, 0)
+	u32(&b, 0)
+	u32(&b, 4000)
+	u32(&b, 3)
+	u32(&b, 3)
+	b.Write(data[:3])
+	pad(&b)
+	block(6, b.Bytes())
+	return f.Bytes()
+}
+
 func loadSeeds(maxLen int) []seed {
 	var out []seed
 	files, _ := filepath.Glob(filepath.Join(report.Root(), "corpus", "files", "*"))
@@ -89,6 +200,8 @@ func loadSeeds(maxLen int) []seed {
 		}
 		out = append(out, seed{fmt.Sprintf("synthetic-pcap-snaplen-%d", snap), "pcap", b.Bytes()})
 	}
+	out = append(out, seed{"synthetic-pcapng-every-block-type-le", "pcapng", ngSynthetic(binary.LittleEndian)})
+	out = append(out, seed{"synthetic-pcapng-every-block-type-be", "pcapng", ngSynthetic(binary.BigEndian)})
 	out = append(out, seed{"synthetic-snoop-2-records", "snoop", snoopFile([][]byte{{1, 2, 3, 4, 5, 6, 7}, {9, 9, 9, 9}}, 4)})
 	out = append(out, seed{"synthetic-snoop-unpadded", "snoop", snoopFile([][]byte{{1, 2, 3, 4, 5, 6, 7, 8}}, 1)})
 	// gzip-wrapped copies of a few small files of each format
@@ -470,7 +583,9 @@ func main() {
 				}
 				for at := 0; at < len(d); at++ {
 					var o outcome
-					w.Guard("reader short read", func() { o = run(s.kind, 0, func() *chunked { c := newChunked(d, 0); c.shortAt = at; return c }(), len(d)) })
+					w.Guard("reader short read", func() {
+						o = run(s.kind, 0, func() *chunked { c := newChunked(d, 0); c.shortAt = at; return c }(), len(d))
+					})
 					if o.sig() != base.sig() {
 						w.Violation("c15|result-depends-on-read-sizes|"+s.kind, fmt.Sprintf("one short read at offset %d: %.300s vs %.300s", at, o.sig(), base.sig()))
 					}
